@@ -333,6 +333,12 @@ func (m *Mutate) valuesToProto(ts *uint64) []*pb.MutationProto_ColumnValue {
 				if v == nil {
 					v = emptyQualifier
 				}
+				if len(v) == 0 {
+					// same for an empty (non-nil) qualifier map: without the
+					// empty qualifier nothing is sent for the family and
+					// HBase deletes the whole row
+					v = emptyQualifier
+				}
 			} else {
 				// delete specific qualifiers
 				if m.deleteOneVersion {
@@ -439,6 +445,9 @@ func (m *Mutate) valuesToCellblocks() ([]byte, int32, uint32) {
 		}
 		if v == nil {
 			v = emptyQualifier
+		} else if len(v) == 0 && m.mutationType == pb.MutationProto_DELETE {
+			// an empty qualifier map deletes the whole family as well
+			v = emptyQualifier
 		}
 		count += len(v)
 		for k1, v1 := range v {
@@ -466,6 +475,9 @@ func (m *Mutate) valuesToCellblocks() ([]byte, int32, uint32) {
 				}
 				// add empty qualifier
 				if v == nil {
+					v = emptyQualifier
+				}
+				if len(v) == 0 {
 					v = emptyQualifier
 				}
 			} else {
